@@ -161,7 +161,8 @@ def semantic_vectors(tier):
 def comment_vectors():
     return [cw.opts(original_code_as_comment=True, generated_comments=True, append_version=True),
             cw.opts(generated_comments=True, inline_functions=True, compact=True),
-            cw.opts(append_version=True, remove_labels=True, use_push_pop_functions=True)]
+            cw.opts(append_version=True, remove_labels=True, use_push_pop_functions=True),
+            cw.opts(original_code_as_comment=True, append_version=True, remove_labels=True)]
 
 
 def pragma_text(v):
@@ -176,6 +177,8 @@ def pragma_text(v):
 # ---------------------------------------------------------------------------------------
 def check_c02(tier, t0):
     progs = pick(all_progs(), tier, 30) + names_family(twice=True)
+    if not any(n == "br_long_remarks" for n, _, _ in progs):
+        progs += [p for p in all_progs(["branches"]) if p[0] == "br_long_remarks"]
     vecs = semantic_vectors(tier) + comment_vectors()
     if tier == "quick":
         # every program under 5 seeded vectors + the comment vectors; every vector used
@@ -193,7 +196,7 @@ def check_c02(tier, t0):
             continue
         pa = ic10load.load(ref)
         wit = {c for f in known_findings().get("findings", []) for c in f.get("cases", [])}
-        vs = vecs if (tier == "thorough" or n in wit) else rnd.sample(vecs, 6)
+        vs = vecs if (tier == "thorough" or n in wit or n == "br_long_remarks") else rnd.sample(vecs, 6)
         for v in vs:
             tag = cw.vec_name(v)
             code = code_of(mat[(n, tag)])
